@@ -67,7 +67,7 @@ var posSuffix = regexp.MustCompile(`@[^@]*$`)
 // function and clause, never by line).
 func stableName(o *Oblig) string {
 	n := o.Name
-	if strings.HasPrefix(n, "post:") || strings.HasPrefix(n, "inv-step:") || strings.HasPrefix(n, "pre:") || strings.HasPrefix(n, "safe:") || strings.HasPrefix(n, "frame") || strings.HasPrefix(n, "dead:") || strings.HasPrefix(n, "assert:") || strings.HasPrefix(n, "cover:") {
+	if strings.HasPrefix(n, "post:") || strings.HasPrefix(n, "inv-step:") || strings.HasPrefix(n, "exit:") || strings.HasPrefix(n, "pre:") || strings.HasPrefix(n, "safe:") || strings.HasPrefix(n, "frame") || strings.HasPrefix(n, "dead:") || strings.HasPrefix(n, "assert:") || strings.HasPrefix(n, "cover:") {
 		n = posSuffix.ReplaceAllString(n, "")
 	}
 	return o.Fn + "::" + n
